@@ -469,7 +469,26 @@ pub fn seeds_for(target: &str) -> Vec<Seed> {
                 }
             }
         }
-        "mime" => {
+        "patch-data" => {
+            let z = {
+                use std::io::Write;
+                let mut e = flate2::write::ZlibEncoder::new(Vec::new(), flate2::Compression::default());
+                let _ = e.write_all(&vec![7u8; 300]);
+                e.finish().unwrap_or_default()
+            };
+            let mk = |spec: &str, payload: &[u8]| {
+                let mut v = spec.as_bytes().to_vec();
+                v.push(0);
+                v.extend_from_slice(payload);
+                v
+            };
+            add("patch-data-n", Some(mk("n", b"plain payload")));
+            add("patch-data-z", Some(mk("z", &z)));
+            add("patch-data-blocks", Some(mk("b:{16=n,4*2=n,*=z}", &[&[1u8; 24][..], &z[..]].concat())));
+            add("patch-data-huge-size", Some(mk("b:{18446744073709551615*4294967295=n,*=n}", b"0123456789")));
+            add("patch-data-huge-k", Some(mk("b:{16777216K*65535=n,1K*2=n,*=z}", b"0123456789")));
+        }
+        "mime" | "mime-v1-module" => {
             add("mime-versions", Some(mime_seed(BPSV)));
             add("mime-short", Some(mime_seed("Region!STRING:0|BuildId!DEC:4\n## seqn = 1\nus|1")));
         }
